@@ -71,7 +71,7 @@ pub fn prop() -> HistProp {
             "the io trace hook sits in VarFile::{flush,sync_all,sync_data}; the system-call level is cross-checked by the strace variant (child cases)",
         ],
         cfg,
-        n: |t| t.pick(8000, 80000),
+        n: |t| t.pick(8000, 40000),
         nontrivial,
         timeout: |t| t.pick(60, 120),
         shrink_iters: 400,
@@ -438,10 +438,10 @@ fn run_fault_case(c: &super::c16::C16Case, w: &WCtx) -> Result<Report, Failure> 
 }
 
 fn n_kill(tier: Tier) -> u64 {
-    tier.pick(1500, 15000)
+    tier.pick(1500, 7500)
 }
 fn n_strace(tier: Tier) -> u64 {
-    tier.pick(300, 3000)
+    tier.pick(300, 1500)
 }
 
 impl Prop for C03 {
